@@ -279,6 +279,10 @@ fn concurrent_v<V: Fv>(ctx: &Ctx, threads: usize, per_thread: usize, rep: &mut R
 }
 
 pub fn concurrent(ctx: &Ctx, rep: &mut Report) {
+    if !crate::pool::keygen_responds::<F512>() {
+        rep.inconclusive("key generation did not return within 180 s (canary); reported as inconclusive, never as a violation".into());
+        return;
+    }
     let per = ctx.sz(25, 200);
     for t in [2usize, 8, 16, 64] {
         concurrent_v::<F512>(ctx, t, per, rep);
